@@ -40,17 +40,25 @@ import vlib
 from props import c01, c03
 
 ID = "C04"
-GEN = ["Dist", "Leaves", "Combinators", "Planar", "Params"]
+GEN = ["Dist", "Leaves", "Combinators", "Planar", "Params", "Misc", "Bnaf"]
 RULE = c03.RULE + (" [C04 re-runs C03's correspondence: the generated Transformed/leaf/Chain definitions its theorems are about are tied there; "
                    "the quadrature/KS oracle (search) runs on the real code when a tie breaks]")
 TRUSTED = c03.TRUSTED + [
     "Mathlib's change-of-variables theorems (MeasureTheory.integral_image_eq_integral_abs_det_fderiv_smul and the 1-D variants)",
-    "Proofs/MassFlow.lean layer predicates InvJac/FwdJac/InvJacN are hypotheses of the stack theorems; they are discharged in Lean for Affine/Scale/Loc/LeakyTanh/spline only",
+    "Proofs/MassFlow.lean layer predicates InvJac/FwdJac (1-D) and InvJacN/FwdJacN (d-D, finitely many measurable pieces) are hypotheses of the generic stack "
+    "theorems; they are DISCHARGED in Lean for Affine/Scale/Loc/LeakyTanh/spline (1-D) and, in d dimensions, for affine Coupling, affine MaskedAutoregressive, "
+    "Planar (tanh, leaky relu; fixed or condition-dependent parameters), BlockAutoregressiveNetwork, Flip and Permute, each in either orientation",
+    "hand models the d-dimensional theorems are about: Model/Masks.lean + Model/NetInverse.lean (Coupling, MAF, BNAF forward / inverse / log-dets; tie: netinv.corr_net, "
+    "re-run here), Model/BnafLd.lean (BNAF transform_and_log_det; tie: bnafld.corr_bnafld, re-run here), Model/Perm.lean (Permute) and the generated Flip "
+    "(tie: corr_permutations here), Planar.getPlanar (tie: planar_tri.corr_planar)",
 ]
 ASSUMPTIONS = [
     "PARTIAL: PRNG statistics (that jax.random.normal draws from the normal density) and IEEE rounding are outside the theorems",
-    "BlockAutoregressiveNetwork's sampling direction uses the numerical inverter, so 'samples follow the density' holds up to C10's tolerance",
-    "d-dimensional Coupling/MAF/Planar/BNAF normalisation is reduced to the hypotheses InvJacN (lawful + Jacobian of the inverse + reported log-det) until their Jacobian theorems exist",
+    "BlockAutoregressiveNetwork's sampling direction uses the numerical inverter and Planar(tanh) implements no inverse: 'samples follow the density' is proved "
+    "for the exact inverse (C10's tolerance bounds the inverter's distance from it); normalisation of the Invert(...) orientation involves the forward methods only",
+    "MAF / Coupling: the conditioner's activation is assumed differentiable (tanh, softplus, gelu, ...); with the default relu the layer is differentiable off "
+    "finitely many hyperplane preimages (a null set) — outside the theorems, covered by the quadrature oracle only",
+    "only the Affine transformer is discharged for Coupling / MAF in d dimensions (spline transformers: 1-D theorems + oracle)",
     "block_neural_autoregressive_flow / triangular_spline_flow factories cannot be constructed in this environment; BlockAutoregressiveNetwork is hand-built instead",
 ]
 
@@ -64,15 +72,56 @@ def ks_dkw(n):
     return math.sqrt(math.log(2 / 1e-9) / (2 * n))
 
 
+def corr_permutations(c, tier, rng):
+    """Flip (generated) and Permute (Model/Perm.lean) on vectors, all four methods; the log-det both return is 0 (what PermMass.permuteBij / flipBij record)"""
+    import itertools
+    from vlib import fs2b, ints
+    lines, wants, infos = [], [], []
+    perms = [p for size in (1, 2, 3, 4) for p in itertools.permutations(range(size))]
+    for _ in range(12 if tier == "quick" else 120):
+        p = list(range(rng.choice([5, 6, 8, 12]))); rng.shuffle(p)
+        perms.append(tuple(p))
+    for p in perms:
+        obj = B.Permute(np.asarray(p))
+        xs = [rng.uniform(-3, 3) for _ in p]
+        for d, m in (("f", "t"), ("i", "i")):
+            lines.append(f"permute {d} {ints(p)} {fs2b(xs)}"); wants.append(c01.impl_line(obj, m, np.asarray(xs)))
+            infos.append(dict(perm=p, method=m))
+            c.case(("perm", p, m), list(p) != sorted(p))
+        for m, f in (("tl", obj.transform_and_log_det), ("il", obj.inverse_and_log_det)):
+            ld = float(f(jnp.asarray(xs))[1])
+            c.case(("perm-ld", p, m), list(p) != sorted(p))
+            if ld != 0.0:
+                c.mismatch("permute-logdet-not-zero", perm=list(p), method=m, impl=ld)
+        c.count("permute")
+    for n in (1, 2, 3, 5):
+        xs = [rng.uniform(-3, 3) for _ in range(n)]
+        obj = B.Flip((n,))
+        for m in fj.METHODS:
+            lines.append(f"flip {m} {fs2b(xs)}"); wants.append(c01.impl_line(obj, m, np.asarray(xs)))
+            infos.append(dict(flip=n, method=m))
+            c.case(("flip", n, m, tuple(xs)), n > 1)
+        c.count("flip")
+    outs = vlib.run_model(lines)
+    for line, got, want, info in zip(lines, outs, wants, infos):
+        c01.compare(c, "permutation-layers-vs-impl", line, got, want, info)
+
+
 def corr(c, tier, rng):
     c03.corr(c, tier, rng)
-    # Planar layers (generated kernels incl. the invertibility constraint get_act_scale) — the layer type whose normalisation
-    # rests on C11.planar_constraint, re-exported in Props/C04 as planar_layer_invertible
+    # Planar layers (generated kernels incl. the invertibility constraint get_act_scale, get_planar for conditional layers) — the objects of
+    # section 10 of Props/C04.lean
     from props import planar_tri
     planar_tri.corr_planar(c, tier, rng)
     # density path (transform_and_log_det / inverse_and_log_det) and sampling path (transform / inverse) of the network bijections are the same function
     from props import oracles
     oracles.corr_method_agreement(c, tier, rng, nested=False)
+    # the hand models sections 8, 9, 11, 12 of Props/C04.lean are about: Coupling / MAF / BNAF forward, inverse and log-dets (Model/Masks, Model/NetInverse),
+    # BNAF's own log-det computation (Model/BnafLd), Permute (Model/Perm) and the generated Flip
+    from props import netinv, bnafld
+    netinv.corr_net(c, tier, rng)
+    bnafld.corr_bnafld(c, tier, rng)
+    corr_permutations(c, tier, rng)
 
 
 # ------------------------------------------------------------------ grids
@@ -329,7 +378,7 @@ def check_1d(desc, dist, cond, scalar, tier, seed, do_ks=True, ks_extra=0.0):
     return wit, info
 
 
-def check_2d(desc, dist, cond, tier, seed):
+def check_2d(desc, dist, cond, tier, seed, do_ks=True):
     wit, info = [], {}
     total, allow, edge, cells, evals = mass_2d(dist, cond, tier)
     info.update(mass=total, allow=allow, edge=edge, evals=evals)
@@ -339,6 +388,8 @@ def check_2d(desc, dist, cond, tier, seed):
     if abs(total - 1) > TOL2 + allow:
         wit.append(dict(key=f"{desc}|mass", desc=desc, law="integral of exp(log_prob) over the sample space = 1",
                         got=total, tolerance=TOL2 + allow))
+    if not do_ks:
+        return wit, info
     # marginal KS for both coordinates (marginal densities by quadrature over the other coordinate)
     n = KS_N[tier]
     s = np.asarray(dist.sample(jr.PRNGKey(seed), (n,), condition=cond))
@@ -406,14 +457,39 @@ def configurations(tier, rng):
                 yield f"hand:{desc}#{i}|cond#{ci}", 1, build2
         else:
             yield f"hand:{desc}#{i}", 1, build
+    # planar_flow with the default tanh activation, the orientation the factory builds (invert=True: log_prob uses the forward methods only;
+    # the library implements no inverse, so only the mass is checked) — Props/C04.lean flowNd_planar_tanh_normalised.  Appended last so that the
+    # random stream of every earlier configuration is unchanged.
+    for d in (1, 2):
+        for cd in (None, 2):
+            s = rng.randrange(2 ** 30)
+
+            def buildt(d=d, cd=cd, s=s):
+                fl = flows.planar_flow(jr.PRNGKey(s % 1000), base_dist=StandardNormal((d,)), cond_dim=cd, flow_layers=2, invert=True,
+                                       **({"width_size": 8, "depth": 1} if cd else {}))
+                fl = perturb(fl, random.Random(s), scale=1.0)
+                r = random.Random(s + 1)
+                return fl, (jnp.asarray([r.uniform(-2, 2), r.uniform(-2, 2)]) if cd else None), False
+            yield f"planar_flow[tanh]|d={d}|invert=True|cond={cd}|mass-only", d, buildt
+    for i in range(2 if tier == "quick" else 8):
+        s = rng.randrange(2 ** 30)
+
+        def buildh(s=s):
+            r = random.Random(s)
+            w = [r.choice([-1, 1]) * r.uniform(1.5, 3.0), r.uniform(-3, 3)]
+            u = [r.uniform(-3, 3), r.uniform(-3, 3)]
+            pl = eqx.tree_at(lambda p: p.params, B.Planar(jr.PRNGKey(0), dim=2), jnp.asarray(w + u + [r.uniform(-1, 1)]))
+            return Transformed(StandardNormal((2,)), B.Invert(pl)), None, False
+        yield f"hand:planar-tanh-large-w#{i}|mass-only", 2, buildh
 
 
 def evaluate(desc, d, build, tier, seed=0):
     dist, cond, scalar = build()
     bnaf = "BlockAutoregressive" in desc
+    do_ks = "mass-only" not in desc  # Planar(tanh) implements no inverse: `sample` of Invert(Planar(tanh)) raises NotImplementedError by design
     if d == 1:
-        return check_1d(desc, dist, cond, scalar, tier, seed, ks_extra=1e-3 if bnaf else 0.0)
-    return check_2d(desc, dist, cond, tier, seed)
+        return check_1d(desc, dist, cond, scalar, tier, seed, do_ks=do_ks, ks_extra=1e-3 if bnaf else 0.0)
+    return check_2d(desc, dist, cond, tier, seed, do_ks=do_ks)
 
 
 def search(hints, tier, rng, verbose=False):
